@@ -4,13 +4,18 @@
  *       str/ares_str.c, inet_net_pton.c, ares_hosts_file.c (only ares_dns_pton is reached), dsa/ares_llist.c,
  *       ares_library_init.c.
  * Stubs: ares_uri_parse_buf() = "not a URI" (the dns:// form is OUTSIDE), ares_array = array_ref.c,
- *        interface lookups aif_nametoindex/aif_indextoname = arbitrary result.
+ *        interface lookups aif_nametoindex/aif_indextoname = arbitrary result; -DPTON_STUB (ipaddr_long job only):
+ *        ares_dns_pton = "invalid address" + NUL-termination check.
  *
  * text = PREFIX (concrete, may be empty) followed by L bytes, each an arbitrary member of CHARSET.
  * MODE 0: parse_nameserver() on an exact-size heap buffer (any over-read is an out-of-bounds dereference).
  *         Oracle: success => family is AF_INET/AF_INET6, the address parses, udp_port == tcp_port == decimal value
  *         of the port digits found by an independent scan (c15_ns_port: silent truncation above 65535),
  *         ll_iface NUL-terminated inside its IF_NAMESIZE buffer.
+ *         Known-finding selectors: KF_c15_ns_port / KFONLY_c15_ns_port (port text above 65535).
+ * MODE 2: ares_sconfig_append() with arbitrary address (v4/v6 incl. link-local fe80::/10 and blacklisted fec0::/10),
+ *         arbitrary ports and the text as interface name: what is stored equals what was given, link-local needs a
+ *         resolvable interface, blacklisted is skipped.
  * MODE 1: ares_sconfig_append_fromstr() on the NUL-terminated text (no blank/comma in CHARSET => one entry;
  *         -DSPLIT_AT=k plants a blank at byte k => two entries): result codes, list entries valid, link-local
  *         entries carry a scope, blacklisted fec0::/10 never stored, nothing leaks after ares_llist_destroy. */
@@ -39,6 +44,22 @@ ares_status_t ares_uri_parse_buf(ares_uri_t **out, ares_buf_t *buf)
   return ARES_EBADSTR;
 }
 
+#ifdef PTON_STUB
+/* long-address probe only: the address text is never valid (more than 8 groups); what is checked is that it
+ * reaches the converter as a NUL-terminated string inside ipaddr[INET6_ADDRSTRLEN] */
+const void *ares_dns_pton(const char *ipaddr, struct ares_addr *addr, size_t *out_len)
+{
+  size_t i;
+  (void)addr;
+  for (i = 0; i < INET6_ADDRSTRLEN && ipaddr[i] != 0; i++)
+    ;
+  VP_ASSERT(i < INET6_ADDRSTRLEN, "address text handed to the converter is NUL-terminated inside ipaddr[INET6_ADDRSTRLEN]");
+  if (i >= 44) VP_WITNESS("address text of 44+ chars reached the converter");
+  *out_len = 0;
+  return NULL;
+}
+#endif
+
 static unsigned int if_nametoindex_stub(const char *ifname, void *user_data)
 {
   (void)user_data;
@@ -48,8 +69,9 @@ static unsigned int if_nametoindex_stub(const char *ifname, void *user_data)
 static const char *if_indextoname_stub(unsigned int ifindex, char *ifname_buf, size_t ifname_buf_len, void *user_data)
 {
   (void)user_data;
-  (void)ifindex;
-  if (vp_bool() || ifname_buf_len < 3)
+  /* index 0 is never a valid interface (if_indextoname(0) fails); the library does pass 0 for "%0" although the
+   * callback documentation says "must be > 0" */
+  if (ifindex == 0 || vp_bool() || ifname_buf_len < 3)
     return NULL;
   ifname_buf[0] = 'e';
   ifname_buf[1] = (char)('0' + (vp_u8() & 7));
@@ -137,6 +159,12 @@ void harness(void)
           nd++;
         }
         VP_ASSERT(nd >= 1 && nd <= 5, "an accepted port has 1..5 digits (portstr[6])");
+#ifdef KF_c15_ns_port
+        VP_ASSUME(port <= 65535);
+#endif
+#ifdef KFONLY_c15_ns_port
+        VP_ASSUME(port > 65535);
+#endif
         VP_ASSERT(port <= 65535, "c15_ns_port: an accepted port is a 16-bit number (no silent truncation of 65536..99999)");
         VP_ASSERT(s.udp_port == (unsigned short)port, "port equals the decimal value of its digits");
         VP_WITNESS("port given");
@@ -154,6 +182,49 @@ void harness(void)
     }
     ares_buf_destroy(buf);
     vp_free(exact);
+  }
+#elif MODE == 2
+  /* ares_sconfig_append() directly: arbitrary address/ports, interface name = the text */
+  {
+    static ares_channel_t ch;
+    ares_llist_t         *list = NULL;
+    struct ares_addr      addr;
+    unsigned short        up = vp_u16(), tp = vp_u16();
+    ares_status_t         st;
+    int                   ll, bl, withfuncs = vp_bool();
+    memset(&addr, 0, sizeof(addr));
+    addr.family = vp_bool() ? AF_INET : AF_INET6;
+    vp_bytes((unsigned char *)&addr.addr, addr.family == AF_INET ? 4 : 16);
+    if (withfuncs) {
+      ch.sock_funcs.aif_nametoindex = if_nametoindex_stub;
+      ch.sock_funcs.aif_indextoname = if_indextoname_stub;
+    }
+    ll = addr.family == AF_INET6 && addr.addr.addr6._S6_un._S6_u8[0] == 0xfe && (addr.addr.addr6._S6_un._S6_u8[1] & 0xc0) == 0x80;
+    bl = addr.family == AF_INET6 && addr.addr.addr6._S6_un._S6_u8[0] == 0xfe && (addr.addr.addr6._S6_un._S6_u8[1] & 0xc0) == 0xc0;
+    st = ares_sconfig_append(&ch, &list, &addr, up, tp, N == 0 ? NULL : (const char *)text);
+    VP_ASSERT(st == ARES_SUCCESS, "appending a server never fails while memory is available");
+    if (bl) {
+      VP_ASSERT(ares_llist_len(list) == 0, "blacklisted fec0::/10 server is skipped");
+      VP_WITNESS("blacklisted");
+    } else if (ll && (N == 0 || !withfuncs)) {
+      VP_ASSERT(ares_llist_len(list) == 0, "link-local server without a resolvable interface is skipped");
+    } else if (ares_llist_len(list) == 1) {
+      const ares_sconfig_t *s = ares_llist_first_val(list);
+      VP_ASSERT(ares_addr_match(&s->addr, &addr) && s->udp_port == up && s->tcp_port == tp, "stored server equals the given address and ports");
+      if (ll) {
+        VP_ASSERT(s->ll_scope != 0 && s->ll_iface[0] != 0, "a stored link-local server carries interface name and scope");
+        for (i = 0; i < IF_NAMESIZE && s->ll_iface[i] != 0; i++)
+          ;
+        VP_ASSERT(i < IF_NAMESIZE, "stored interface name is NUL-terminated");
+        VP_WITNESS("link-local stored");
+      } else {
+        VP_ASSERT(s->ll_scope == 0 && s->ll_iface[0] == 0, "interface on a non-link-local address is ignored");
+      }
+    } else {
+      VP_ASSERT(ll && ares_llist_len(list) == 0, "only a link-local server whose interface lookup failed is dropped");
+      VP_WITNESS("link-local lookup failed");
+    }
+    ares_llist_destroy(list);
   }
 #else
   {
